@@ -102,6 +102,8 @@ package store
 
 //@ pred headsDir(root) := pjoin(pjoin(root, "refs"), "heads")
 //@ pred refPath(root, name) := pjoin(headsDir(root), name)
+// a branch file is not an object file or an object directory (C02, C03: writing objects leaves every branch where it is)
+//@ lemma [refs-apart] {C02,C03} forall root string, name string, h string {refPath(root, name), object.objPath(root, h)} :: validName(name) && len(h) >= 2 ==> refPath(root, name) != object.objPath(root, h) && refPath(root, name) != object.objDir(root, h)
 
 //@ func branch.write
 //@   returns err
@@ -220,6 +222,11 @@ package store
 //@ pred wfSections(m) := m != nil && (forall i string :: mapHas(m, i) ==> mapGet(m, i) != nil) && (forall i, j string :: mapHas(m, i) && mapHas(m, j) && i != j ==> mapGet(m, i) != mapGet(m, j))
 //@ pred wfConfig(c) := wfSections(c.local) && wfSections(c.global) && c.local != c.global && (forall i, j string :: mapHas(c.local, i) && mapHas(c.global, j) ==> mapGet(c.local, i) != mapGet(c.global, j))
 
+// every value the loader puts into a section is part of one line of a config file: no value holds a line break (C02:
+// the identity written into a commit's header cannot start a header line of its own)
+//@ pred oneLineSections(m) := forall i, k string :: confHas(m, i, k) ==> !contains(confGet(m, i, k), "\n")
+//@ pred oneLineConfig(c) := oneLineSections(c.local) && oneLineSections(c.global)
+
 // identRegexp is `^\[.*\]$`: a match has both brackets (assumed; validated in /verif/replay/store.go.txt)
 //@ regexp identRegexp: match(s) ==> len(s) >= 2
 
@@ -229,18 +236,31 @@ package store
 //@   modifies maps, $rdpos, $screst, $sctok
 //@   requires wfConfig(c)
 //@   ensures [wf] {C20,C19} wfConfig(c)
+//@   ensures [one-line] {C02} old(oneLineConfig(c)) ==> oneLineConfig(c)
 //@   loop 0:
 //@     invariant wfConfig(c)
+//@     invariant [one-line] {C02} old(oneLineConfig(c)) ==> oneLineConfig(c)
 //@     invariant [section-open] {C19} ident != "" ==> ite(isGlobal, mapHas(c.global, ident) && mapGet(c.global, ident) != nil, mapHas(c.local, ident) && mapGet(c.local, ident) != nil)
+
+//@ func newConfig
+//@   returns c
+//@   ensures [empty] {C20,C02} c != nil && fresh(c) && wfConfig(c) && oneLineConfig(c)
+
+//@ func NewConfig
+//@   returns c, err
+//@   modifies maps, $rdpos, $screst, $sctok
+//@   ensures [result] {C20,C19,C02} err == nil ==> c != nil && wfConfig(c) && oneLineConfig(c)
 
 //@ func Config.GetUserName
 //@   returns name
 //@   pure
+//@   ensures [one-line] {C02} oneLineConfig(c) ==> !contains(name, "\n")
 //@   ensures [precedence] {C20,C02} name == ite(confHas(c.local, "user", "name"), confGet(c.local, "user", "name"), ite(confHas(c.global, "user", "name"), confGet(c.global, "user", "name"), ""))
 
 //@ func Config.GetEmail
 //@   returns email
 //@   pure
+//@   ensures [one-line] {C02} oneLineConfig(c) ==> !contains(email, "\n")
 //@   ensures [precedence] {C20,C02} email == ite(confHas(c.local, "user", "email"), confGet(c.local, "user", "email"), ite(confHas(c.global, "user", "email"), confGet(c.global, "user", "email"), ""))
 
 //@ func Config.IsUserSet
@@ -322,6 +342,10 @@ package store
 //@   modifies $rdpos, $hashdata
 //@   ensures [result] {C10,C19} err == nil ==> c != nil && c.Object != nil
 //@   ensures [connected] {C03} err == nil ==> object.commitStored(fs, rootGoitPath, c.Hash) && len(c.Hash) >= 20
+//@   ensures [tip] {C10,C03} err == nil ==> string(c.Hash) == unhex(content(fs, refPath(rootGoitPath, branch)))
+//@   ensures [tip-text] {C02} err == nil ==> !contains(content(fs, refPath(rootGoitPath, branch)), "\n")
+//@   ensures [tree-of] {C05,C03} err == nil ==> string(c.Tree) == object.commitTreeOf(fs, rootGoitPath, c.Hash)
+//@   ensures [parents-of] {C02,C14} err == nil ==> c.Parents == object.commitParentsOf(fs, rootGoitPath, c.Hash)
 //@   ensures [nil] err != nil ==> c == nil
 
 //@ regexp headRegexp: match(s) ==> contains(s, ": ")
@@ -334,6 +358,9 @@ package store
 //@   ensures [file] {C10,C03} err == nil ==> fs == fsWrite(old(fs), headPath(rootGoitPath), "ref: refs/heads/" + newRef) && h.Reference == newRef && h.Commit != nil && h.Commit.Object != nil
 //@   ensures [only] {C10,C03} sameExcept(fs, old(fs), headPath(rootGoitPath))
 //@   ensures [connected] {C03} err == nil ==> object.commitStored(fs, rootGoitPath, h.Commit.Hash)
+//@   ensures [tip] {C10,C03} err == nil ==> string(h.Commit.Hash) == unhex(content(fs, refPath(rootGoitPath, newRef)))
+//@   ensures [tree-of] {C05,C03} err == nil ==> string(h.Commit.Tree) == object.commitTreeOf(fs, rootGoitPath, h.Commit.Hash)
+//@   ensures [parents-of] {C02,C14} err == nil ==> h.Commit.Parents == object.commitParentsOf(fs, rootGoitPath, h.Commit.Hash)
 
 //@ func Head.Reset
 //@   returns err
@@ -346,6 +373,7 @@ package store
 //@   ensures [disk-only] {C08,C03} sameExcept(fs, old(fs), refPath(rootGoitPath, h.Reference))
 //@   ensures [head-same] {C08} h.Reference == old(h.Reference)
 //@   ensures [connected] {C03} err == nil ==> object.commitStored(fs, rootGoitPath, h.Commit.Hash)
+//@   ensures [tree-of] {C05,C08} err == nil ==> string(h.Commit.Tree) == object.commitTreeOf(fs, rootGoitPath, h.Commit.Hash) && string(h.Commit.Hash) == string(hash)
 //@   ensures [wf] wfRefs(refs)
 
 //@ func Index.Reset
@@ -370,6 +398,9 @@ package store
 //@   modifies $rdpos, $hashdata, $screst, $sctok
 //@   ensures [result] {C10,C19} err == nil ==> h != nil && (h.Commit != nil ==> h.Commit.Object != nil)
 //@   ensures [connected] {C03} err == nil && h.Commit != nil ==> object.commitStored(fs, rootGoitPath, h.Commit.Hash) && len(h.Commit.Hash) >= 20
+//@   ensures [tree-of] {C05,C03} err == nil && h.Commit != nil ==> string(h.Commit.Tree) == object.commitTreeOf(fs, rootGoitPath, h.Commit.Hash)
+//@   ensures [parents-of] {C02,C14} err == nil && h.Commit != nil ==> h.Commit.Parents == object.commitParentsOf(fs, rootGoitPath, h.Commit.Hash)
+//@   ensures [tip-text] {C02} err == nil && h.Commit != nil ==> !contains(content(fs, refPath(rootGoitPath, h.Reference)), "\n")
 
 //@ func NewReflog
 //@   returns rl, err
@@ -418,7 +449,15 @@ package store
 
 //@ func newIgnore
 //@   returns i
-//@   ensures [builtin] {C17} i != nil && fresh(i) && wfIgnore(i)
+//@   ensures [builtin] {C17} i != nil && fresh(i) && wfIgnore(i) && i.paths == seqAppend(emptyLike(i.paths), builtinIgnore())
+
+// The patterns loaded from .goitignore (C17, C13): one per line, in order, appended to the built-in one; a line with a
+// '/' becomes "<line>.*", any other line has '.' escaped and '*' turned into ".*". ignPats is defined by recursion over
+// the lines (object.nextTok / object.nextRest: the line a scanner splits off and what is left; one unfolding per line).
+//@ pred ignPattern(t) := ite(reMatches(directoryRegexp, t), t + ".*", replaceAll(replaceAll(t, ".", "\\."), "*", ".*"))
+//@ pred ignorePath(root) := pjoin(pdir(root), ".goitignore")
+//@ ghost ignPats(acc []string, rest string) []string
+//@ axiom [ignPats-def] forall acc []string, rest string {ignPats(acc, rest), scanStep(rest)} :: ignPats(acc, rest) == ite(len(rest) == 0, acc, ignPats(seqAppend(acc, ignPattern(object.nextTok(rest))), object.nextRest(rest)))
 
 //@ func Ignore.load
 //@   returns err
@@ -426,14 +465,19 @@ package store
 //@   requires wfIgnore(i)
 //@   ensures [builtin-kept] {C17} wfIgnore(i)
 //@   ensures [others] forall x *Ignore :: x != i ==> x.paths == old(x.paths)
+//@   ensures [no-file] {C17,C13} isAbsent(fs, ignorePath(rootGoitPath)) ==> i.paths == old(i.paths)
+//@   ensures [patterns] {C17,C13} err == nil && isFile(fs, ignorePath(rootGoitPath)) ==> i.paths == ignPats(old(i.paths), content(fs, ignorePath(rootGoitPath)))
 //@   loop 0:
 //@     invariant wfIgnore(i)
 //@     invariant forall x *Ignore :: x != i ==> x.paths == old(x.paths)
+//@     invariant [patterns-so-far] {C17,C13} isFile(fs, ignorePath(rootGoitPath)) ==> ignPats(old(i.paths), content(fs, ignorePath(rootGoitPath))) == ignPats(i.paths, scRest(scanner))
 
 //@ func NewIgnore
 //@   returns i, err
 //@   modifies $screst, $sctok, $rdpos
 //@   ensures [result] {C17,C19} err == nil ==> i != nil && fresh(i) && wfIgnore(i)
+//@   ensures [no-file] {C17,C13} isAbsent(fs, ignorePath(rootGoitPath)) && err == nil ==> len(i.paths) == 1
+//@   ensures [patterns] {C17,C13} err == nil && isFile(fs, ignorePath(rootGoitPath)) ==> len(i.paths) >= 1 && i.paths == ignPats(seqAppend(emptyLike(i.paths), builtinIgnore()), content(fs, ignorePath(rootGoitPath)))
 
 // Whatever else the list holds, a path inside Goit's own directory is always reported as ignored.
 //@ func Ignore.IsIncluded
@@ -441,6 +485,7 @@ package store
 //@   pure
 //@   requires wfIgnore(i) && index != nil && wfIndex(index)
 //@   ensures [meta] {C17} hasPrefix(path, ".goit/") ==> res
+//@   ensures [only-meta] {C17} len(i.paths) == 1 && res ==> hasPrefix(path, ".goit/") || hasPrefix(path + "/", ".goit/")
 //@   loop 0:
 //@     invariant [first-rule] hasPrefix(path, ".goit/") ==> hasPrefix(target, ".goit/") && it == 0
 
